@@ -57,6 +57,8 @@ class Options:
     install_skill: bool
     agent_base: str | None
     docs: bool
+    # Base include patterns. Only settable from a config file; None means the defaults.
+    include: list[str] | None = None
 
 
 def _parse_args(args: list[str] | None = None) -> tuple[Options, set[str], bool]:
@@ -314,6 +316,7 @@ def _parse_args(args: list[str] | None = None) -> tuple[Options, set[str], bool]
             nobackup=opts.nobackup,
             version=opts.version,
             list_spacing=ListSpacing(opts.list_spacing),
+            include=None,
             extend_include=opts.extend_include,
             exclude=opts.exclude,
             extend_exclude=opts.extend_exclude,
@@ -351,13 +354,14 @@ def _resolve_files(options: Options) -> list[str]:
     if not _needs_file_resolution(options.files) and not options.list_files:
         return options.files
 
-    from flowmark.file_resolver import FileResolver, FileResolverConfig
+    from flowmark.file_resolver import DEFAULT_INCLUDES, FileResolver, FileResolverConfig
 
     # Filter out stdin marker before passing to resolver
     resolvable = [f for f in options.files if f != "-"]
     stdin_present = len(resolvable) < len(options.files)
 
     config = FileResolverConfig(
+        include=options.include if options.include is not None else list(DEFAULT_INCLUDES),
         extend_include=options.extend_include,
         exclude=options.exclude,
         extend_exclude=options.extend_exclude,
